@@ -250,7 +250,7 @@ const defaultMaxStack = 1000000000
 
 var workerMaxStack = func() int {
 	mb := 48
-	if v := os.Getenv("ZV_MAXSTACK_MB"); v != "" { // development aid
+	if v := os.Getenv("ZV_MAXSTACK_MB"); v != "" { // the confirming re-execution asks for Go's own bound (lib/props/C01.py)
 		fmt.Sscanf(v, "%d", &mb)
 	}
 	return mb << 20
